@@ -1320,3 +1320,95 @@ func scnCrash(g *Gen, budget int, arg string) {
 
 var _ = binary.BigEndian
 var _ = crypto.Keccak256
+
+// ---------------------------------------------------------------------------------------------
+// replace: the C09 matrix — originals that are the submitter's own, somebody else's, from a foreign
+// domain, unattested, attested by a rotated-out set, too short, with a non-burn body, or a burn-shaped
+// body inside a message the module never sent.
+
+func init() { scenarios["replace"] = scnReplace }
+
+func scnReplace(g *Gen, budget int, arg string) {
+	for g.nOps < budget {
+		g.initStandard(3, 2)
+		for i := 0; i < 4; i++ {
+			g.validFlow(i)
+		}
+		for k := 0; k < 60 && g.nOps < budget; k++ {
+			sub := g.pick(len(g.acct))
+			from := g.acct[sub]
+			src := uint32(4)
+			if g.chance(0.15) {
+				src = []uint32{0, 1, 5}[g.pick(3)]
+			}
+			var sender []byte
+			switch g.pick(4) {
+			case 0, 1:
+				sender = pad32(g.acctRaw[sub])
+			case 2:
+				sender = pad32(g.acctRaw[(sub+1)%len(g.acct)])
+			default:
+				sender = types.PaddedModuleAddress
+			}
+			var body []byte
+			burnShaped := g.chance(0.6)
+			if burnShaped && g.chance(0.6) {
+				sender = types.PaddedModuleAddress
+			}
+			if burnShaped {
+				ms := pad32(g.acctRaw[sub])
+				if g.chance(0.25) {
+					ms = pad32(g.acctRaw[(sub+2)%len(g.acct)])
+				}
+				body = buildBurnBody(uint32(g.pick(2)/1*0), crypto.Keccak256([]byte(mintDenom)), g.rand32(), bigPool(g), ms)
+				if g.chance(0.1) {
+					body = body[:131]
+				}
+			} else {
+				body = g.randBytes(g.pick(200))
+			}
+			orig := buildMessage(0, src, g.domain(), uint64(g.pick(1000)), sender, g.rand32(), g.rand32(), body)
+			if g.chance(0.05) {
+				orig = orig[:g.pick(116)]
+			}
+			o := attOpts{legacyV: g.pick(3)}
+			switch g.pick(10) {
+			case 0:
+				o.mutation = []string{"trunc1", "pad65", "reverse", "flipBit", "dupLast"}[g.pick(5)]
+			case 1:
+				o.overMsg = append(append([]byte{}, orig...), 1)
+			case 2:
+				// rotate an attester out after signing: sign first, then disable one signer
+				en := g.enabledKeys()
+				if len(en) > int(g.threshold()) && len(en) > 1 {
+					att := g.attest(orig, o)
+					g.tx("DisableAttester", newKV().set("from", hs(g.role("am"))).set("attester", hs(g.pubHex[en[0]])))
+					g.emitReplace(from, orig, att, burnShaped)
+					g.tx("EnableAttester", newKV().set("from", hs(g.role("am"))).set("attester", hs(g.pubHex[en[0]])))
+					continue
+				}
+			}
+			att := g.attest(orig, o)
+			g.emitReplace(from, orig, att, burnShaped)
+			if g.chance(0.15) {
+				which := []string{"BurningAndMinting", "SendingAndReceivingMessages"}[g.pick(2)]
+				g.pauseTx(which, true)
+				g.emitReplace(from, orig, att, burnShaped)
+				g.pauseTx(which, false)
+			}
+		}
+	}
+}
+
+func (g *Gen) emitReplace(from string, orig, att []byte, burnShaped bool) {
+	caller := [][]byte{make([]byte, 32), g.rand32(), g.rand32(), {}, g.randBytes(31)}[g.pick(5)]
+	if burnShaped || g.chance(0.2) {
+		rcp := [][]byte{g.rand32(), g.rand32(), g.rand32(), make([]byte, 32), {}, g.randBytes(33)}[g.pick(6)]
+		g.tx("ReplaceDepositForBurn", newKV().set("from", hs(from)).set("message", hx(orig)).set("attestation", hx(att)).
+			set("newCaller", hx(caller)).set("newMintRecipient", hx(rcp)).set("ecr", ecrEntries(orig, att)))
+	}
+	if !burnShaped || g.chance(0.3) {
+		g.tx("ReplaceMessage", newKV().set("from", hs(from)).set("message", hx(orig)).set("attestation", hx(att)).
+			set("newBody", hx(g.randBytes(g.pick(200)))).set("newCaller", hx(caller)).set("ecr", ecrEntries(orig, att)))
+	}
+}
